@@ -181,7 +181,7 @@ def oracle_integrals(case):
 
 
 SUBS = [
-    Sub('reference_derivatives', case_strategy(12), oracle_reference, quick=640, thorough=16000, use_target=True),
-    Sub('invariants', case_strategy(24), oracle_invariants, quick=1600, thorough=48000, use_target=True),
-    Sub('integral_identities', integral_strategy(), oracle_integrals, quick=480, thorough=12000, use_target=True),
+    Sub('reference_derivatives', case_strategy(12), oracle_reference, quick=640, thorough=96000, use_target=True),
+    Sub('invariants', case_strategy(24), oracle_invariants, quick=1600, thorough=288000, use_target=True),
+    Sub('integral_identities', integral_strategy(), oracle_integrals, quick=480, thorough=72000, use_target=True),
 ]
